@@ -51,8 +51,9 @@ Theorem add_solution_scalars : forall (o : oracles) acc fieldv e i,
     /\ Forall (acc_ok acc fieldv e i st') as_table.
 Proof.
   intros o acc fieldv e i. eexists. split.
-  - unfold as_prefix, as_state. cbn. reflexivity.
-  - repeat constructor; (eexists; split; [cbn; reflexivity | cbn; ring]).
+  - unfold as_prefix, as_state. cbn [map combine app as_table other_acc fst snd gen_add_solution_params].
+    repeat (step ltac:(idtac)).
+  - unfold as_table. repeat (apply Forall_cons; [eexists; split; [cbn; reflexivity | cbn; ring]|]). apply Forall_nil.
 Qed.
 
 (* the totals loop *)
@@ -136,6 +137,7 @@ Definition agrees (ds : list sdata) (els : list string) : bool :=
       && eqv "tc_x" (x_tc m) && eqv "ph_x" (x_ph m)
       && forallb (fun e => match map_get e (get_map master_totals st) with
                            | Some (VQ q) => Qeq_bool q (x_tot m e)
+                           | None => Qeq_bool 0 (x_tot m e)      (* element absent from every solution *)
                            | _ => false
                            end) els
   end.
